@@ -74,6 +74,33 @@ CLAIMED["C16"] = ("Proof: field names, order, pointer/integer kinds and function
     "compared with the models and with Rust-side read-backs.",
     "5.C16", "Trusted: Coq kernel (vm_compute); translator; hand-written C declarations in driver.c; gcc / x86-64 SysV layout; shared models.",
     "Coq finite check over translator-generated declarations + drive-equivalence lemmas + C-driven differential execution")
+_GEN_NOTE = "Trusted: Coq kernel; hand-written generator model tied by structural abstraction of REAL expansions + compiled programs using the real macros; extraction; harness/gen and harness/prog; rustc."
+CLAIMED["C01"] = ("Proof: for every trait of the grammar and every call, dispatch through the generated glue (trait re-implementation -> vtable slot -> Default entry -> "
+    "wrapper -> trait method) reaches the method of the same index exactly once with identical arguments and the result comes back unchanged; receiver access matches "
+    "the receiver kind. The generator model is compared on every run with REAL expansions over ALL single-method traits of the grammar + random multi-method ones; compiled "
+    "direct-vs-opaque histories on every container kind and all cast cells are the monitor.", "5.C01", _GEN_NOTE,
+    "Coq proof over a generator model + structural translation validation of real expansions + compiled differential runs")
+CLAIMED["C02"] = ("Proof: for every argument shape and every inhabitant, and every return shape (integer results through a fresh out slot), the conversion chosen by the generator on "
+    "the caller side followed by the one chosen on the wrapper side is the identity; whole argument vectors in order. Tie: per-position conversions and C types of REAL "
+    "expansions vs the model (exhaustive single-method grammar); monitor: compiled programs in which the implementation records address, length and digest of every argument "
+    "and the caller checks results and callee writes.", "5.C02", _GEN_NOTE,
+    "Coq algebraic laws over a generator model + structural translation validation + compiled differential runs")
+CLAIMED["C04"] = ("Proof: one vtable slot per method in declaration order; group = mandatory vtables in identifier order, optional ones in identifier order, container; every "
+    "With-variant has the field shape of the base struct; the sorted order is independent of the user's listing order (determinism: the model takes no other input). Tie: slot "
+    "positions and field sequences of REAL trait and group expansions (adversarial identifiers, every subset) vs the model.", "5.C04", _GEN_NOTE,
+    "Coq proof (sorting, positional merge) over a generator model + structural translation validation of real expansions")
+CLAIMED["C06"] = ("Proof: over every finite history of create/call/owned child/consuming calls/clone/cast (successful or failing)/upcast/drop followed by the release of what is left, the "
+    "instances created and destroyed are the same multiset and none is alive; at every prefix the live instances are exactly those owned by live handles. The lifecycle model is "
+    "compared row by row with compiled programs (drop logs, live counters) on random histories; all cast cells check exactly-once destruction.", "5.C06", _GEN_NOTE,
+    "Coq invariant proof over a lifecycle model + compiled differential runs")
+CLAIMED["C07"] = ("Proof: at every point the context count equals live derived objects + clones parked in return slots; outside the known class (borrowed wrapped children, F-C07) the "
+    "count is back to its starting value once all derived objects are gone; the known class is proved real. Tie/monitor: compiled lifecycle histories with Arc::strong_count "
+    "sampled after every op; consuming calls on the holder of the last reference must not destroy the context payload inside the callee's wrapper (backtrace probe).", "5.C07", _GEN_NOTE,
+    "Coq invariant proof over a lifecycle/context model + compiled differential runs; one known finding")
+CLAIMED["C08"] = ("Proof (any number of optional traits with distinct identifiers): the macro's sorted request equals the sublist of the group's sorted optional list a function was "
+    "generated for; that function validates exactly the requested vtables; success <-> requested subset of enabled; With-variants share the base layout. Tie: REAL group "
+    "expansions + REAL cast macros abstracted per subset; monitor: ALL 8x7x5x3 cells in compiled programs with post-cast calls, upcast and destructor counts.", "5.C08", _GEN_NOTE,
+    "Coq proof (sorted-permutation uniqueness, peekable merge) + structural translation validation + exhaustive compiled runs")
 PENDING = "not yet built in this round (planned, see DESIGN.md section 5); not claimed until its theorem, tie and monitor exist"
 NA = {}
 
